@@ -74,7 +74,7 @@ def run_corr(case):
         with np.errstate(all="ignore"):
             den = den_member.sample_patch_sum()
         floor = 1e-9 * max(float(np.nanmax(np.abs(den.data))), float(np.nanmax(np.abs(den.samples))), 1e-300)
-        judged_k = np.abs(den.samples) > floor
+        judged_k = (np.abs(den.samples) > floor) & pl.normalisation_ok(cf)[1]
         recomputed = []
         for k in range(P):
             red_cats = [_without(c, s.patch != k) for c, s in zip(cats, samples)]
